@@ -48,6 +48,34 @@ func runC20(c *Ctx, r *Report) {
 	r.Explanation = "Fan-out correctness for any number of targets rests on the handle-cache protocol, decided structurally: an evicted handler is closed (flushed) outside the lock with its error kept and the *evicted* name recorded; a recorded name can only be reopened with O_APPEND (the truncating constructor is control-dependent on the evicted-names lookup); the manager's mutex is released exactly once on every path and the LRU helpers run only under it; every manager created by a DSL redirect is registered for end-of-stream closing and the redirect operator selects the matching manager kind; tee/split close at end of stream; a per-target writer is told end-of-stream and awaited before flush and close; tee/split hand the file writer a copy and tee does not relay downstream-done; per-target writer state must survive eviction (known finding)."
 	r.NotDecided = "which records reach which target and in which order (data-dependent routing); contents of files."
 	fn := c.SSAFunc(c.LookupFunc("pkg/output", "MultiOutputHandlerManager.getOutputHandlerFor"))
+	// the cache protocol may have been moved out of the entry point: it is the method of the
+	// manager that evicts (calls lruRemove); follow the entry point to it when it only dispatches
+	if fn != nil {
+		evicts := func(f *ssa.Function) bool {
+			if f == nil || f.Blocks == nil {
+				return false
+			}
+			for _, b := range f.Blocks {
+				for _, in := range b.Instrs {
+					if call, ok := in.(*ssa.Call); ok && call.Call.StaticCallee() != nil && call.Call.StaticCallee().Name() == "lruRemove" {
+						return true
+					}
+				}
+			}
+			return false
+		}
+		if !evicts(fn) {
+			for _, b := range fn.Blocks {
+				for _, in := range b.Instrs {
+					if call, ok := in.(*ssa.Call); ok {
+						if sc := call.Call.StaticCallee(); sc != nil && sc.Pkg == fn.Pkg && sc.Signature.Recv() != nil && evicts(sc) {
+							fn = sc
+						}
+					}
+				}
+			}
+		}
+	}
 	if fn == nil {
 		r.Undecided("R20.0", "getOutputHandlerFor", "", "anchor not found")
 		return
@@ -627,9 +655,16 @@ func c20HandlerClose(c *Ctx, r *Report) {
 			return []Facts{g}
 		case *ssa.Call:
 			n := CalleeName(&x.Call)
+			// a method of the handler that finishes the writer: on each of its paths to a
+			// return there is no writer, or the marker was sent (or the error received) and done/error awaited
+			if sc := x.Call.StaticCallee(); sc != nil && sc != f && sc.Pkg == f.Pkg && sc.Blocks != nil && sc.Signature.Recv() != nil && len(x.Call.Args) > 0 && x.Call.Args[0] == ssa.Value(f.Params[0]) {
+				if finishesWriter(sc) {
+					return []Facts{fa.With("helperFinished")}
+				}
+			}
 			if n == "bufio.Writer.Flush" {
 				sawFlush = true
-				if fa.Has("hasWriter") && !(fa.Has("eosSent") && fa.Has("waited")) {
+				if !(fa.Has("noWriter") || fa.Has("helperFinished") || (fa.Has("eosSent") && fa.Has("waited"))) {
 					problems["flush before writer finished"] = c.Rel(x.Pos()) + ": Flush() is reachable while the writer goroutine may still be producing output (end-of-stream not sent or done not awaited): the tail of the file is lost"
 				}
 				return []Facts{fa.With("flushed")}
@@ -1281,4 +1316,56 @@ func c20CloseLoops(c *Ctx, r *Report) {
 		}
 	}
 	r.Floor("R20.11", "loops that call Close", n, 2)
+}
+
+// finishesWriter: h, a method of FileOutputHandler, brings the record-writer
+// goroutine to its end on every path: where recordOutputChannel is not nil it
+// sends on it (or receives the writer's error) and waits on the done or error
+// channel in a blocking select before returning.
+func finishesWriter(h *ssa.Function) bool {
+	ok, saw := true, false
+	pr := &PathRule{Fn: h}
+	pr.Branch = func(fa Facts, cond ssa.Value, pol bool, iff *ssa.If) (Facts, bool) {
+		if bo, isB := cond.(*ssa.BinOp); isB && (bo.Op == token.NEQ || bo.Op == token.EQL) {
+			if kk, isK := bo.Y.(*ssa.Const); isK && kk.IsNil() {
+				if _, name, okf := fieldLoadName(bo.X); okf && name == "recordOutputChannel" {
+					if (bo.Op == token.NEQ) == pol {
+						return fa.With("hasWriter"), true
+					}
+					return fa.With("noWriter"), true
+				}
+			}
+		}
+		return nil, true
+	}
+	pr.Transfer = func(fa Facts, in ssa.Instruction, deferred bool) []Facts {
+		switch x := in.(type) {
+		case *ssa.Send:
+			if _, name, okf := fieldLoadName(x.Chan); okf && name == "recordOutputChannel" {
+				return []Facts{fa.With("eosSent")}
+			}
+		case *ssa.Select:
+			g := fa
+			for _, st := range x.States {
+				if _, name, okf := fieldLoadName(st.Chan); okf {
+					if name == "recordOutputChannel" && st.Dir == types.SendOnly {
+						g = g.With("eosSent")
+					}
+					if (name == "recordDoneChannel" || name == "recordErroredChannel") && st.Dir == types.RecvOnly && x.Blocking {
+						g = g.With("waited")
+					}
+				}
+			}
+			return []Facts{g}
+		}
+		return nil
+	}
+	pr.AtReturn = func(fa Facts, ret *ssa.Return) {
+		saw = true
+		if !(fa.Has("noWriter") || (fa.Has("eosSent") && fa.Has("waited"))) {
+			ok = false
+		}
+	}
+	pr.Run()
+	return ok && saw && !pr.Overflow
 }
